@@ -92,6 +92,9 @@ func (a *tableAuthz) Authorize(sess *wamp.Session, msg wamp.Message) (bool, erro
 			return false, nil
 		case "fail":
 			return false, errors.New("authorizer failed")
+		case "allowerr":
+			// allowed, with an error the router is to ignore (e.g. a decision taken from a cache)
+			return true, errors.New("authorizer backend unavailable")
 		default:
 			return true, nil
 		}
